@@ -301,6 +301,18 @@ impl<Sink: TokenSink> XmlTokenizer<Sink> {
     // NB: this doesn't do input stream preprocessing or set the current input
     // character.
     fn eat(&self, input: &BufferQueue, pat: &str) -> Option<bool> {
+        if self.ignore_lf.get() {
+            match self.peek(input) {
+                // The line feed of a CR LF pair may only arrive with the next chunk.
+                None if !self.at_eof.get() => return None,
+                Some('\n') => {
+                    input.next();
+                },
+                _ => (),
+            }
+            self.ignore_lf.set(false);
+        }
+
         input.push_front(replace(&mut *self.temp_buf.borrow_mut(), StrTendril::new()));
         match input.eat(pat, u8::eq_ignore_ascii_case) {
             None if self.at_eof.get() => Some(false),
